@@ -1,3 +1,4 @@
+import Ivy.Generated.Consts
 import Ivy.L3.InotifyProofs
 /-!
 # C20 — iv_inotify routes every event to its watch; unregistering inside handlers is safe
@@ -126,5 +127,12 @@ example : runCalls St.init
 (`iv_avl_tree_delete` on a node that is not in the tree) -/
 example : (match run St.init [.instRegister 0 4, .watchRegister 1 0 2 5, .gotEvent 0 0 (.data [⟨5, 0x8000, 0, 0⟩]), .watchUnregister 1] with
     | .fault _ => true | _ => false) = true := by decide
+
+/-- T-gen obligation: the buffer `iv_inotify_got_event` hands to `read(2)` (its size is evaluated by the compiler from the source's own
+declaration and regenerated on every run) holds at least one event of the largest size the kernel can produce (header + NAME_MAX + 1
+name bytes, padded to 16); otherwise `read` fails with EINVAL for such an event and it — and everything queued behind it — is never
+delivered. The model's `gotEvent` (a read returns whole records) relies on it. -/
+theorem read_buffer_holds_any_event :
+    0 < Ivy.Generated.INOTIFY_MAX_EVENT ∧ Ivy.Generated.INOTIFY_MAX_EVENT ≤ Ivy.Generated.INOTIFY_READ_BUF := by decide
 
 end Ivy.Props.C20
